@@ -1,5 +1,6 @@
 import GqlProofs.ValSpec.ValuesCorrectOneOfRun
 import GqlProofs.ValSpec.ValuesCorrectOneOfEx
+import GqlProofs.ValSpec.ValuesCorrectNum
 /-
   ValuesOfCorrectType (§5.6.1, with §5.6.2 field names, §5.6.4 required fields, `@oneOf`) — the final statements.
 
@@ -26,8 +27,11 @@ import GqlProofs.ValSpec.ValuesCorrectOneOfEx
     `rootsInput s d`          the declared type of every typed value position resolves to an input type
                               (`rootsInput_of_closed`: from `ClosedArgTypes`, `ClosedDirectiveArgTypes`, `variablesAreInputTypes`);
     `numLiteralsOK s d`       for the Int / Float literals at typed positions, `strconv` and the specification's
-                              arithmetic agree on the text (`numLeafOK`; `int_lexeme_agree`: the Int part holds for every
-                              IntValue lexeme; an IntValue must also be finite as a double — see the finding `bigInt`);
+                              arithmetic agree on the text (`numLeafOK`).  PROVED for every IntValue lexeme, of any
+                              size (`numLeafOK_int_of_lexeme`, `ValuesCorrectNum.lean`: `int_lexeme_agree` for
+                              `ParseInt(·,10,32)` / `int32Ok`, `int_lexeme_float_agree` for `ParseFloat` / `floatLitFinite`);
+                              what remains a hypothesis is the agreement `floatErr raw = !floatLitFinite raw` on
+                              FloatValue texts (`numLiteralsOK_of_lexemes`);
     `leavesWellFormed s d`    `Value.Value(nil)` fails on no value of the document (Int / Float / Boolean leaves are
                               well-formed texts; true of parser output);
   and, only when the schema has `@oneOf` input objects:
